@@ -240,9 +240,12 @@ class TargetFunction : public DensityFunction {
 
 public:
   TargetFunction(const Target &t) : _t(t) {}
+  std::vector< NodeId > *_record = nullptr; // leaves the function is evaluated for (block-wise traversal)
   virtual DensityValues operator()(const Cell &cell) {
     DensityValues v;
     const NodeId n = _t.leaf_of(cell.get_cell_midpoint());
+    if (_record)
+      _record->push_back(n);
     const long kap = std::get< 0 >(n) >= 0 ? _t.leaves.at(n) : 1;
     // opacity kap = n x sigma: density 1, neutral fraction kap / 4 (cells of opacity 0 still record path lengths)
     v.set_number_density(1.);
@@ -346,6 +349,23 @@ static int do_amrgrid(const char *in, const char *outname) {
       NodeId n = t.node_at(L, it.get_cell_midpoint());
       byid.insert(std::make_pair(n, it));
       out << (ic ? "," : "") << jid(n);
+    }
+    out << "],\"blocks\":[";
+    {
+      // block-wise traversal through the job market (DensityGrid::set_densities), as for the Cartesian grid
+      const long nc = (long)grid.get_number_of_cells();
+      const long cuts[4] = {0, nc / 3, (2 * nc) / 3 + (nc > 2 ? 1 : 0), nc};
+      for (int k = 0; k < 3; ++k) {
+        std::vector< NodeId > rec;
+        function._record = &rec;
+        std::pair< cellsize_t, cellsize_t > sub = std::make_pair((cellsize_t)cuts[k], (cellsize_t)cuts[k + 1]);
+        grid.set_densities(sub, function, 1);
+        function._record = nullptr;
+        out << (k ? "," : "") << "[" << cuts[k] << "," << cuts[k + 1] << ",[";
+        for (size_t j = 0; j < rec.size(); ++j)
+          out << (j ? "," : "") << jid(rec[j]);
+        out << "]]";
+      }
     }
     out << "],\"ncell\":" << grid.get_number_of_cells() << ",\"volsum\":";
     out.precision(17);
